@@ -73,6 +73,7 @@ fn run(ctx: &Ctx, out: &mut Out) {
     leg_policies(ctx, out);
     leg_scratch_and_hide(ctx, out);
     leg_convert(ctx, out);
+    leg_confusable(ctx, out);
     leg_inject(ctx, out);
     leg_words(ctx, out);
 }
@@ -406,6 +407,46 @@ fn leg_convert(ctx: &Ctx, out: &mut Out) {
                             out.sample(leg, || (label(), format!("{nstates} canonical states reached by conversion/witness/branch/hiding histories of depth <= {depth}; root CMR equals the re-hashed one in all of them")));
                         }
                     }
+                    Ok(Err((c, d))) => out.violation(&c, leg, label(), d),
+                    Err(e) => out.violation(&panic_class(&e), leg, label(), e),
+                }
+                ctx.end();
+            }
+        }
+    }
+}
+
+/// C01's confusable siblings (every ordered pair of different one-constructor expressions side by side in one
+/// 7-node program) through the conversion graph: the root must survive serialisation and every other conversion
+/// although the two siblings differ only in what kind of node they are.
+fn leg_confusable(ctx: &Ctx, out: &mut Out) {
+    use crate::props::c01::{ex_to_dag, one_constructor_exprs, Ex};
+    let leg = "confusable";
+    let mut m = Merkle::default();
+    let depth = ctx.tier.pick(3, 4);
+    for fam in [Fam::Core, Fam::Elements] {
+        let exprs = one_constructor_exprs(fam);
+        for f in &exprs {
+            if !ctx.mine() {
+                continue;
+            }
+            for g in &exprs {
+                if f == g {
+                    continue;
+                }
+                let b = |e: Ex| Box::new(e);
+                let host = Ex::Bin(Sym::Comp, b(Ex::Leaf(Sym::Witness)), b(Ex::Bin(Sym::Comp, b(Ex::Bin(Sym::Pair, b(f.clone()), b(g.clone()))), b(Ex::Leaf(Sym::Unit)))));
+                let dag = ex_to_dag(&host);
+                let Some(p) = Prog::new(&dag, fam) else { continue };
+                let label = || p.render();
+                if !ctx.begin(leg, &label) {
+                    continue;
+                }
+                out.evaluations += 1;
+                out.nontrivial += 1;
+                let want = ref_cmrs(&dag, fam, &mut m);
+                match guard(|| explore(&p, &want, depth, out)) {
+                    Ok(Ok(nstates)) => out.sample(leg, || (label(), format!("{nstates} canonical states reached; root CMR equals the re-hashed one in all of them"))),
                     Ok(Err((c, d))) => out.violation(&c, leg, label(), d),
                     Err(e) => out.violation(&panic_class(&e), leg, label(), e),
                 }
